@@ -3,7 +3,7 @@
  "name": "rsz_adjust_new_size_4k",
  "props": ["C08"],
  "level": "U/k",
- "tier": "wip",
+ "tier": "quick",
  "harness": "h_adjust_new_size",
  "includes": ["resize"],
  "defines": ["RGS_BPG=32768", "RGS_IPG=8192", "RGS_DPB=64", "CFG_LOG_BS=2", "CFG_DESC_SIZE=64", "CFG_FDB=0"],
@@ -24,7 +24,7 @@
  "name": "rsz_adjust_new_size_1k",
  "props": ["C08"],
  "level": "U/k",
- "tier": "wip",
+ "tier": "quick",
  "harness": "h_adjust_new_size",
  "includes": ["resize"],
  "defines": ["RGS_BPG=8192", "RGS_IPG=2048", "RGS_DPB=32", "CFG_LOG_BS=0", "CFG_DESC_SIZE=32", "CFG_FDB=1"],
